@@ -527,42 +527,7 @@ func c19Round3(p *Prog, r *Report) {
 	}
 	r.Floor("R9", "functions reading a duration with period.Parse", nReaders, 1)
 
-	r.Rule("R10", "every value built by a constructor of the data model owns its parts: the address of a package-level variable is never stored into an object or returned (two values sharing one scale, number or timestamp cell change together)")
-	nStores, nBad := 0, 0
-	for _, fn := range p.RepoFns("model") { // the data model's constructors; spine shares one read-only version string between datagram headers by design
-		if isWrapper(fn) || fn.Name() == "init" {
-			continue
-		}
-		for _, b := range fn.Blocks {
-			for _, ins := range b.Instrs {
-				switch x := ins.(type) {
-				case *ssa.Store:
-					if _, isField := x.Addr.(*ssa.FieldAddr); !isField {
-						continue
-					}
-					if _, isPtr := x.Val.Type().Underlying().(*types.Pointer); !isPtr {
-						continue
-					}
-					nStores++
-					if g, isG := x.Val.(*ssa.Global); isG && g.Pkg != nil && strings.HasPrefix(g.Pkg.Pkg.Path(), repoMod) {
-						nBad++
-						r.Fail("R10", fmt.Sprintf("fn:%s|global:%s", FnName(originOf(fn)), g.Name()), p.InstrPos(x), fmt.Sprintf("the address of package-level variable %s is stored into %s: every value built this way shares that one cell", g.Name(), Path(x.Addr)))
-					}
-				case *ssa.Return:
-					for _, res := range x.Results {
-						if g, isG := res.(*ssa.Global); isG && g.Pkg != nil && strings.HasPrefix(g.Pkg.Pkg.Path(), repoMod) && fnPkgPath(fn) == repoMod+"/model" {
-							nBad++
-							r.Fail("R10", fmt.Sprintf("fn:%s|global:%s|returned", FnName(originOf(fn)), g.Name()), p.InstrPos(x), "the address of a package-level variable is returned as a value of the data model")
-						}
-					}
-				}
-			}
-		}
-	}
-	if nBad == 0 {
-		r.Pass("R10", "pointer-stores", "", fmt.Sprintf("%d stores of a pointer into a field: none stores the address of a package-level variable", nStores))
-	}
-	r.Floor("R10", "stores of a pointer into a field", nStores, 8)
+	sharedGlobalCells(p, r, "R10")
 
 	r.Rule("R11", "a custom JSON encoder is used however the value is encoded: MarshalJSON of a data-model type has a value receiver (with a pointer receiver encoding/json skips it for every value that is not addressable — a struct field of a value, an interface, a map element — and emits the internal representation instead)")
 	nEnc := 0
@@ -780,4 +745,92 @@ func c19Round6(p *Prog, r *Report, ruleParse, ruleRound, ruleCtor string) {
 			r.Pass(ruleCtor, "spine|temporal-text", "", "no conversion of a string into a temporal type outside package model")
 		}
 	}
+}
+
+// sharedGlobalCells (C19-R10, shared with C11 and C20): every value built by the data model owns its parts — the
+// address of a package-level variable is never stored into an object or returned, directly or as one alternative of
+// a choice (available := &no; if x { available = &yes }).
+func sharedGlobalCells(p *Prog, r *Report, rule string) {
+	r.Rule(rule, "every value built by a constructor of the data model owns its parts: the address of a package-level variable is never stored into an object or returned, not even as one alternative of a choice (two values sharing one scale, number, flag or timestamp cell change together)")
+	var globalsOf func(v ssa.Value, d int) []*ssa.Global
+	globalsOf = func(v ssa.Value, d int) []*ssa.Global {
+		if d > 4 {
+			return nil
+		}
+		switch x := v.(type) {
+		case *ssa.Global:
+			if x.Pkg != nil && strings.HasPrefix(x.Pkg.Pkg.Path(), repoMod) {
+				return []*ssa.Global{x}
+			}
+		case *ssa.Phi:
+			var res []*ssa.Global
+			for _, e := range x.Edges {
+				res = append(res, globalsOf(e, d+1)...)
+			}
+			return res
+		case *ssa.UnOp:
+			if al, ok := x.X.(*ssa.Alloc); ok && x.Op == token.MUL && al.Referrers() != nil {
+				var res []*ssa.Global
+				for _, ref := range *al.Referrers() {
+					if st, ok := ref.(*ssa.Store); ok && st.Addr == ssa.Value(al) {
+						res = append(res, globalsOf(st.Val, d+1)...)
+					}
+				}
+				return res
+			}
+		}
+		return nil
+	}
+	nStores, nBad := 0, 0
+	seen := map[string]bool{}
+	for _, fn := range p.RepoFns("model") { // the data model's constructors; spine shares one read-only version string between datagram headers by design
+		if isWrapper(fn) || fn.Name() == "init" {
+			continue
+		}
+		for _, b := range fn.Blocks {
+			for _, ins := range b.Instrs {
+				switch x := ins.(type) {
+				case *ssa.Store:
+					if _, isField := x.Addr.(*ssa.FieldAddr); !isField {
+						continue
+					}
+					if _, isPtr := x.Val.Type().Underlying().(*types.Pointer); !isPtr {
+						continue
+					}
+					nStores++
+					for _, g := range globalsOf(x.Val, 0) {
+						key := fmt.Sprintf("fn:%s|global:%s", FnName(originOf(fn)), g.Name())
+						if seen[key] {
+							continue
+						}
+						seen[key] = true
+						nBad++
+						r.Fail(rule, key, p.InstrPos(x), fmt.Sprintf("the address of package-level variable %s is stored into %s: every value built this way shares that one cell", g.Name(), Path(x.Addr)))
+					}
+				case *ssa.Return:
+					for _, res := range x.Results {
+						if _, isPtr := res.Type().Underlying().(*types.Pointer); !isPtr {
+							continue
+						}
+						for _, g := range globalsOf(res, 0) {
+							if fnPkgPath(fn) != repoMod+"/model" {
+								continue
+							}
+							key := fmt.Sprintf("fn:%s|global:%s|returned", FnName(originOf(fn)), g.Name())
+							if seen[key] {
+								continue
+							}
+							seen[key] = true
+							nBad++
+							r.Fail(rule, key, p.InstrPos(x), "the address of a package-level variable is returned as a value of the data model")
+						}
+					}
+				}
+			}
+		}
+	}
+	if nBad == 0 {
+		r.Pass(rule, "pointer-stores", "", fmt.Sprintf("%d stores of a pointer into a field: none stores the address of a package-level variable", nStores))
+	}
+	r.Floor(rule, "stores of a pointer into a field", nStores, 8)
 }
